@@ -1090,9 +1090,7 @@ def campaign(build, tier, seed, report, budget=1):
         if r.get("got") == r.get("want") and "want" in r:
             continue
         i_bad += 1
-        clause = None
-        if r.get("exc") == "OverflowError" and "out of bounds for" in r.get("msg", "") and c["n"] > thi(c["dt"]):
-            clause = "index_array_dtype_posify_overflow"
+        clause = None     # (index_array_dtype_posify_overflow was repaired by 5e6e40f: a recurrence is a plain violation)
         viol.append({"property": "C15", "op": "fancy_index_array:" + c["fmt"], "kind": "value", "clause": clause,
                      "case": c, "impl": r,
                      "replay_py": "import sys; sys.path.insert(0, '/verif/tools'); from props import c15; "
